@@ -1,11 +1,11 @@
 package rules
 
 import (
-	"os"
 	"fmt"
 	"go/ast"
 	"go/token"
 	"go/types"
+	"os"
 
 	"asverif/internal/gf"
 	"asverif/internal/load"
@@ -322,6 +322,22 @@ func runC05(c *Ctx) {
 	c.Check(iw >= 0 && iw < ik && ik < iu && top(r.WLoop) && top(r.KLoop) && top(r.ULoop), "C05.4-phase-order", r.FI.Obj.Name()+": wanted loop < scale-down loop < update walk", r.ULoop.Pos(),
 		"the three phases are consecutive top-level statements in this order, so the update walk is reached only through the scale-down loop's exit",
 		"the update walk is not ordered after the scale-down loop (or a phase is nested)")
+	// under OrderedReady a pod is taken down for an update only when nothing is left to scale in: the scale-down loop
+	// never completes an iteration (C05.3-one-per-reconcile), so its exit is its very first test and the condemned
+	// slice is empty where the update walk deletes
+	nU := 0
+	fn.KeepDead = true // (the condemned slice is not read again after its loop: facts about it are kept for this question)
+	aK := fn.Analyze(c.policyAssumption(r, false))
+	fn.KeepDead = false
+	for i, d := range r.Deletes {
+		if !contains(r.ULoop, d) {
+			continue
+		}
+		nU++
+		name := siteName(r.FI.Obj.Name(), "DeleteStatefulPod", i, d.Args[1])
+		c.Implies(aK.StateAtExpr(d), gf.FEq(gf.LenOf(gf.Var(r.K)), gf.ConstInt(0)), "C05.4-update-only-when-nothing-to-scale-in", name, d.Pos())
+	}
+	c.Floor("C05.4-update-walk-deletes", nU, 1)
 	// C05.4 continuing the update walk requires the current pod updated and healthy
 	c.updateWalkContinue(r, r.An, "C05.4-walk-continue")
 }
@@ -500,7 +516,33 @@ func runC14(c *Ctx) {
 		})
 	}
 	c.Floor("C14.1-returns", nRet, 8)
+	// and outside them: up to the end of the scale-down loop, the only success return reachable under Parallel is the
+	// one for a set that is being deleted (a wait placed between the phases stops the scaling just as one inside a loop)
+	nOut := 0
+	ownNodes(r.FI.Decl.Body, func(n ast.Node) {
+		ret, ok := n.(*ast.ReturnStmt)
+		if !ok || ret.Pos() > r.KLoop.End() || contains(r.WLoop, ret) || contains(r.KLoop, ret) || len(ret.Results) == 0 {
+			return
+		}
+		st := aP.StateBefore(ret)
+		if !st.Reachable() {
+			return
+		}
+		nOut++
+		name := fmt.Sprintf("%s: return[%d] before the end of scaling", r.FI.Obj.Name(), nOut)
+		last := ret.Results[len(ret.Results)-1]
+		deleting := c.Want(fn, ret.Pos(), "$1.DeletionTimestamp != nil", r.Set)
+		if g, _ := st.Implies(gf.Or(gf.FNotNil(fn.Term(last)), deleting)); g && !isNilExpr(info, last) {
+			c.OK("C14.1-only-errors-end-the-pass", name, ret.Pos(), "an error return")
+		} else if g2, _ := st.Implies(deleting); g2 {
+			c.OK("C14.1-only-errors-end-the-pass", name, ret.Pos(), "the set is being deleted")
+		} else {
+			c.Bad("C14.1-only-errors-end-the-pass", name, ret.Pos(), "under Parallel a success return is reachable before the scaling is done, for a set that is not being deleted: vacant ordinals are not created or pods outside the desired set not deleted in this reconcile")
+		}
+	})
+	c.Floor("C14.1-returns-outside-the-loops", nOut, 1)
 
+	c.everyVacancyIsFilled(r, "C14.2-every-vacancy-is-filled")
 	// C14.2 every uncreated cell reaches the create; every live condemned pod reaches the delete
 	cell := loopCell(r.WLoop)
 	wbody := loopBlock(fn, r.WLoop, cfg.KindRangeBody)
